@@ -554,4 +554,60 @@ Section Meta.
     end.
 
   Definition exec (ops : list op) : st := fold_left step ops st0.
+
+  (* the bytes one read of the callee makes it write, split by what triggers the write: (answers of the
+     receive firewall, written from inside add_buffer; answers written by result_handler when the
+     <name>_success / <name>_complete notification of the dispatched event arrives) *)
+  Definition b_replies (s : st) (data : list N) : list N * list N :=
+    let '(js, _) := feed json parse D (b_buf s) data in
+    let '(_, o, _, _) := b_packets js in
+    (pick 0 o, pick 1 o ++ pick 2 o ++ pick 3 o).
+
+  (* the answers that a delivery step makes result_handler write *)
+  Definition notified (s : st) (o : op) : list N :=
+    match o with
+    | OAB n => let '(d, _) := take n (wab s) in match d with [] => [] | _ => snd (b_replies s d) end
+    | OABP => let '(d, _) := take_packet (wab s) in match d with [] => [] | _ => snd (b_replies s d) end
+    | _ => []
+    end.
 End Meta.
+
+(* ------------------------------------------------------------------------------------------------
+   4. several connections on one called side (a Server with several clients, a Node with several
+      peers): one single-connection state per connection id; every step happens on one connection.
+      In the code after fix 8ca1bbb the <name>_success / <name>_complete notification of a remote event is
+      addressed to the Protocol of the connection the call came from ([legacy] = false).  Before, it
+      was fired on the shared channel 'node_result' and EVERY Protocol of the process answered: the
+      value packet was also written on all other connections ([legacy] = true, [n] connections).   *)
+Section Hub.
+  Variable excl : list (list N).
+  Variable dumps : json -> option (list N).
+  Variable loads : list N -> option (option json).
+  Variable D : list N.
+  Variables fw_send fw_recv : event -> bool.
+  Variable handler : event -> hres.
+  Variable b_chan : nat -> json.        (* channel of the called side's Protocol of each connection *)
+  Variable n : nat.                     (* number of connections (matters for [legacy] only) *)
+
+  Definition hub := nat -> st.
+  Definition hub0 : hub := fun _ => st0.
+
+  Definition add_wba (s : st) (b : list N) : st :=
+    {| a_nid := a_nid s; a_issued := a_issued s; a_nores := a_nores s; a_pend := a_pend s;
+       a_calls := a_calls s; a_buf := a_buf s; b_buf := b_buf s; b_log := b_log s; wab := wab s;
+       wba := wba s ++ b; bad := bad s |}.
+
+  Definition hstep (legacy : bool) (h : hub) (co : nat * op) : hub :=
+    let '(c, o) := co in
+    let s' := step excl dumps loads D fw_send fw_recv handler (b_chan c) (h c) o in
+    let extra := notified excl dumps loads D fw_recv handler (b_chan c) (h c) o in
+    fun c' => if Nat.eqb c' c then s'
+              else if legacy && Nat.ltb c' n then add_wba (h c') extra
+              else h c'.
+
+  Definition hrun (legacy : bool) (sched : list (nat * op)) : hub := fold_left (hstep legacy) sched hub0.
+
+  (* the steps of one connection *)
+  Definition ops_of (c : nat) (sched : list (nat * op)) : list op :=
+    map snd (filter (fun co => Nat.eqb (fst co) c) sched).
+End Hub.
